@@ -249,7 +249,7 @@ def viJointRand (cfg : Cfg) (cv : Conv F) (xof : Xof) (ctx : Bytes) (aggId : Nat
     Res (Option Bytes × Option Bytes × List F) :=
   if cfg.t.jointRandLen > 0 then
     match blind with
-    | none => .panic                                   -- `unwrap()` on a share without blind
+    | none => .err                                     -- input share without the blind
     | some b =>
       let own := jointRandPart cfg cv xof ctx b aggId nonce measShare
       let pp := pubParts.getD []
@@ -296,6 +296,8 @@ def verifyInit (C : FieldCtx F) (cfg : Cfg) (cv : Conv F) (xof : Xof) (sumLW : N
     match viShares cfg cv xof ctx aggId msg with
     | none => .panic
     | some (measShare, proofsShare) =>
+      if proofsShare.length ≠ cfg.t.proofLen * cfg.numProofs then .err
+      else
       match viJointRand cfg cv xof ctx aggId nonce pubParts msg.blind measShare with
       | .err => .err
       | .panic => .panic
@@ -313,15 +315,14 @@ def verifyInit (C : FieldCtx F) (cfg : Cfg) (cv : Conv F) (xof : Xof) (sumLW : N
             | .panic => .panic
 
 /-- one iteration of the loop of `verifier_shares_to_message`: running sum, collected joint
-    randomness parts, share count (a `u8` in the Rust code) -/
+    randomness parts, share count -/
 def sumStep (cfg : Cfg) (st : Res (List F × List Bytes × Nat)) (sh : VerifierShare F) : Res (List F × List Bytes × Nat) :=
   match st with
   | .ok (vs, parts, count) =>
-    if count + 1 ≥ 256 then .panic                          -- `count += 1` on a u8
-    else if sh.verifiers.length ≠ cfg.t.verifierLen * cfg.numProofs then .err
+    if sh.verifiers.length ≠ cfg.t.verifierLen * cfg.numProofs then .err
     else if cfg.t.jointRandLen > 0 then
       match sh.jointRandPart with
-      | none => .panic                                       -- `unwrap()`
+      | none => .err                                         -- share without its part
       | some p => .ok (vadd vs sh.verifiers, parts ++ [p], count + 1)
     else .ok (vadd vs sh.verifiers, parts, count + 1)
   | .err => .err
@@ -364,7 +365,7 @@ def verifyNext (C : FieldCtx F) (cfg : Cfg) (cv : Conv F) (xof : Xof) (sumLW : N
     if cfg.t.jointRandLen > 0 then
       match st.jointRandSeed, msg with
       | some a, some b => if a == b then .ok () else .err
-      | _, _ => .panic
+      | _, _ => .err                                         -- state or message without the seed
     else .ok ()
   match check with
   | .err => .err
